@@ -208,6 +208,25 @@ func checkEmWiring(c *core.Ctx) {
 				}
 				return true
 			})
+			// warm start: the estimator's parameters are set from the model of the iteration (B), the one the responsibilities
+			// were computed with; a start from another model makes a one-step inner EM (nested mixtures) start from stale values
+			warm := false
+			hasSetParams := false
+			ast.Inspect(job.Body, func(x ast.Node) bool {
+				if ce, ok := x.(*ast.CallExpr); ok && calleeName(ce) == "SetParameters" {
+					if sel, ok := ast.Unparen(ce.Fun).(*ast.SelectorExpr); ok && strings.Contains(exprStr(sel.X), "estimators") {
+						hasSetParams = true
+					}
+				}
+				if sel, ok := x.(*ast.SelectorExpr); ok && sel.Sel.Name == "Edist" && fieldOf(em, sel.X) == B {
+					warm = true
+				}
+				return true
+			})
+			if hasSetParams {
+				c.Check(warm, "C16.R5", cons, "the component estimator is warm-started from the model of the iteration", job.Pos(),
+					"the job sets the estimator's parameters without reading "+B+".Edist: the estimator starts from another model than the one the responsibilities belong to (with iterative component estimators the likelihood can decrease)")
+			}
 			c.Check(estOK, "C16.R5", cons, "the component estimator is run on the responsibilities handed to Emissions", job.Pos(),
 				"no call Estimate(gamma[c], ...) with the responsibilities parameter of Emissions in the job")
 			c.Check(instOK, "C16.R5", cons, "the estimate is installed into the model the step wrote", job.Pos(),
